@@ -317,11 +317,23 @@ def session(rec, rng, cid, scratch, nsess=2):
             if kind == "weight_cp":
                 return repr(float(rng.choice([0, .5, rng.uniform(0, 3)])))
             if kind == "training_set":
-                return ["zef18", str(tsdir)][int(rng.integers(2))]
+                # (a label, a directory, a directory below the home
+                #  directory written with a tilde, a name that is neither)
+                return ["zef18", str(tsdir), "zef18", str(tsdir),
+                        "~/ts_copy", "no_such_set"][int(rng.integers(6))]
             if kind == "regressor":
                 return str(int(rng.integers(len(reg_names))) + 1)
             return ""
-        out, tr = run_setup(plan, cfg)
+        import os
+        old_home = os.environ.get("HOME")
+        os.environ["HOME"] = str(scratch)      # "~/ts_copy" exists there
+        try:
+            out, tr = run_setup(plan, cfg)
+        finally:
+            if old_home is None:
+                os.environ.pop("HOME", None)
+            else:
+                os.environ["HOME"] = old_home
         scripts.append([[k, a] for k, _, a in tr])
         case = {"id": cid, "kind": "session", "scripts": scripts}
         rec.evaluated(dg=("session", scripts))
@@ -335,8 +347,31 @@ def session(rec, rng, cid, scratch, nsess=2):
                           % (out, [[k, a] for k, _, a in tr if a][-4:]), case)
             continue
         after = json.loads(cfg.read_text())
+        if after.get("rating training set") not in ("zef18", str(tsdir)):
+            # whatever the setup stored has to be usable by the batch fit,
+            # which hands it to the rater as it is
+            from nanite.rate.rater import get_rater
+            try:
+                get_rater(after.get("rating regressor", "Extra Trees"),
+                          training_set=after["rating training set"])
+            except BaseException as e:  # noqa
+                rec.violation("setup/stored-training-set-unusable/"
+                              + type(e).__name__,
+                              "the setup stored the training set %r, which "
+                              "the rater cannot load (%s)"
+                              % (after["rating training set"], str(e)[:80]),
+                              case)
         model_key = after["model_key"]
-        for kind, prompt, ans in tr:
+        for it, (kind, prompt, ans) in enumerate(tr):
+            if kind == "training_set" and it + 1 < len(tr) and \
+                    tr[it + 1][0] == "training_set":
+                # the answer was turned down and the question asked again:
+                # legitimate for anything that is not a usable training set
+                rec.event("training set answers turned down by the setup")
+                rec.check(ans not in ("zef18", str(tsdir)),
+                          "setup/usable-training-set-turned-down",
+                          "the answer %r was turned down" % ans, case)
+                continue
             rec.event("setup prompts judged")
             rec.evaluated(dg=("prompt", kind, ans, cid, s))
             judge_prompt(rec, kind, ans, before, after, steps_reg, mods,
